@@ -29,6 +29,29 @@ pub fn draws() -> u64 {
     f()
 }
 
+/// File-system call points (see detrand.c): before the `fire_at`-th call by path (open / stat family) of the
+/// calling thread whose path contains `needle`, `cb` runs once. `fire_at < 0` only counts.
+pub fn fs_arm(needle: &str, fire_at: i32, cb: Option<extern "C" fn()>) -> bool {
+    let p = lookup("verif_fs_arm");
+    if p.is_null() {
+        return false;
+    }
+    let f: extern "C" fn(*const libc::c_char, i32, Option<extern "C" fn()>) = unsafe { std::mem::transmute(p) };
+    let c = CString::new(needle).unwrap();
+    f(c.as_ptr(), fire_at, cb);
+    true
+}
+
+/// Disarm; returns how many matching calls were seen since `fs_arm`.
+pub fn fs_disarm() -> i32 {
+    let p = lookup("verif_fs_disarm");
+    if p.is_null() {
+        return 0;
+    }
+    let f: extern "C" fn() -> i32 = unsafe { std::mem::transmute(p) };
+    f()
+}
+
 pub fn shim_path() -> std::path::PathBuf {
     if let Ok(p) = std::env::var("VERIF_SHIM") {
         return p.into();
